@@ -1,4 +1,5 @@
 import Toodee.Spec.IterAbs
+import Toodee.Proofs.IterLemmas
 /-
   C09 — Column iterators behave as an ideal double-ended exact-size indexable sequence.
   Same simulation as C08 for `Col`/`ColMut`; items are cell positions.  `col(c)` with `c` out of range panics.
@@ -9,67 +10,77 @@ variable {α : Type}
 theorem C09_next (it : Col) (k n : Nat) (h : it.WF k n) :
     ∃ it', it.next = .ok ((Seq.next (it.abs k)).1, it') ∧ it'.WF (k - 1) n ∧
       it'.abs (k - 1) = (Seq.next (it.abs k)).2 := by
-  sorry
+  obtain ⟨it', h1, h2, _, h5⟩ := Col.next_spec h
+  exact ⟨it', h1, h2, h5⟩
 
 theorem C09_next_back (m : Mode) (it : Col) (k n : Nat) (h : it.WF k n) :
     ∃ it', it.nextBack m = .ok ((Seq.nextBack (it.abs k)).1, it') ∧ it'.WF (k - 1) n ∧
       it'.abs (k - 1) = (Seq.nextBack (it.abs k)).2 := by
-  sorry
+  obtain ⟨it', h1, h2, _, h5⟩ := Col.nextBack_spec m h
+  exact ⟨it', h1, h2, h5⟩
 
 theorem C09_nth (m : Mode) (it : Col) (k n : Nat) (h : it.WF k n) (j : Nat) (hj : j < WORD) :
     ∃ it', it.nth m j = .ok ((Seq.nth (it.abs k) j).1, it') ∧ it'.WF (k - (j + 1)) n ∧
       it'.abs (k - (j + 1)) = (Seq.nth (it.abs k) j).2 := by
-  sorry
+  obtain ⟨it', h1, h2, _, h5⟩ := Col.nth_spec m h j
+  exact ⟨it', h1, h2, h5⟩
 
 theorem C09_nth_back (m : Mode) (it : Col) (k n : Nat) (h : it.WF k n) (j : Nat) (hj : j < WORD) :
     ∃ it', it.nthBack m j = .ok ((Seq.nthBack (it.abs k) j).1, it') ∧ it'.WF (k - (j + 1)) n ∧
       it'.abs (k - (j + 1)) = (Seq.nthBack (it.abs k) j).2 := by
-  sorry
+  obtain ⟨it', h1, h2, _, h5⟩ := Col.nthBack_spec m h j
+  exact ⟨it', h1, h2, h5⟩
 
 theorem C09_len (m : Mode) (it : Col) (k n : Nat) (h : it.WF k n) : it.sizeHint m = .ok k := by
-  sorry
+  exact Col.sizeHint_spec m h
 
 theorem C09_last (m : Mode) (it : Col) (k n : Nat) (h : it.WF k n) :
     it.last m = .ok (Seq.last (it.abs k)) := by
-  sorry
+  exact Col.last_spec m h
 
 theorem C09_fold (it : Col) (k n : Nat) (h : it.WF k n) (fuel : Nat) (hf : k < fuel) :
     it.collect fuel = .ok (it.abs k) := by
-  sorry
+  exact Col.collect_spec h fuel hf
 
 theorem C09_rfold (m : Mode) (it : Col) (k n : Nat) (h : it.WF k n) (fuel : Nat) (hf : k < fuel) :
     it.collectBack m fuel = .ok (it.abs k).reverse := by
-  sorry
+  exact Col.collectBack_spec m h fuel hf
 
 /-- indexing: `col[i]` is the `i`-th remaining cell, and panics for `i ≥ len` — also when `i*(1+skip)` wraps -/
 theorem C09_index (m : Mode) (it : Col) (k n : Nat) (h : it.WF k n) (i : Nat) (hi : i < WORD) :
     (i < k → it.index m i = .ok (it.v.off + i * (1 + it.skip)) ∧ (it.abs k)[i]? = some (it.v.off + i * (1 + it.skip))) ∧
     (¬ i < k → it.index m i = .error .panic) := by
-  sorry
+  refine ⟨fun hlt => ⟨Col.index_lt m h hlt, ?_⟩, fun hge => Col.index_ge m h (by omega)⟩
+  rw [Col.abs_getElem?, if_pos hlt]
 
 theorem C09_word (m : Mode) (it : Col) (k n : Nat) (h : it.WF k n) (w : List Seq.Op)
     (hw : ∀ o ∈ w, o.small) :
     ∃ it' k', it.run m w = .ok ((Seq.run (it.abs k) w).1, it') ∧ it'.WF k' n ∧
       it'.abs k' = (Seq.run (it.abs k) w).2 := by
-  sorry
+  obtain ⟨it', k', h1, h2, _, h5⟩ := Col.run_spec m h w
+  exact ⟨it', k', h1, h2, h5⟩
 
 /-- `col(c)` / `col_mut(c)` of an owned array: in range gives the column's cells top to bottom; out of range panics -/
 theorem C09_col_owned (m : Mode) (t : TD α) (h : t.Inv) (c : Nat) (hc : c < WORD) :
     (c < t.numCols → ∃ it, t.col m c = .ok it ∧ it.WF t.numRows t.data.length ∧
         it.abs t.numRows = (List.range t.numRows).map fun r => t.pos c r) ∧
     (¬ c < t.numCols → t.col m c = .error .panic) := by
-  sorry
+  refine ⟨fun hlt => ?_, TD.col_panic m t c⟩
+  obtain ⟨it, h1, h2, _, _, h5⟩ := TD.col_WF m t h c hlt
+  exact ⟨it, h1, h2, h5⟩
 
 /-- `col(c)` / `col_mut(c)` of a view -/
 theorem C09_col_view (m : Mode) (v : VW) (n : Nat) (h : v.Inv n) (c : Nat) (hc : c < WORD) :
     (c < v.numCols → ∃ it, v.col m c = .ok it ∧ it.WF v.numRows n ∧
         it.abs v.numRows = (List.range v.numRows).map fun r => v.pos c r) ∧
     (¬ c < v.numCols → v.col m c = .error .panic) := by
-  sorry
+  refine ⟨fun hlt => ?_, VW.col_panic m v c⟩
+  obtain ⟨it, h1, h2, _, _, h5⟩ := VW.col_WF m v n h c hlt
+  exact ⟨it, h1, h2, h5⟩
 
 /-- the cells handed out by `col_mut` are distinct positions inside the buffer -/
 theorem C09_col_distinct (it : Col) (k n : Nat) (h : it.WF k n) :
     (it.abs k).Nodup ∧ ∀ p ∈ it.abs k, p < n := by
-  sorry
+  exact ⟨Col.abs_nodup it k, Col.abs_inside h⟩
 
 end Toodee
